@@ -13,7 +13,7 @@ RULE = ('one case = one real audit of a generated peer (random and boundary name
         'Oracle, relational inside the same report plus first-appeared facts read from the live table: removals/changes subset of advertised-and-rated, rated names known in the identified version are recommended unless the report '
         'says they are outside the operator\'s control, critical <=> has a failure note, additions are unadvertised / clean / not certificate, security-key or pseudo algorithms / available in the identified version, nothing both ways, '
         'unrecognised software gets no additions.  Non-trivial: the report carried >= 1 recommendation or >= 1 rated algorithm; distinct = distinct (peer, banner, rendering)')
-REQUIRED = {'audits_completed': 100, 'recs_checked': 500, 'rated_names_checked': 300, 'additions_checked': 100, 'unrecognised_software': 10, 'json_runs': 30}
+REQUIRED = {'multi_target_entries': 8, 'audits_completed': 100, 'recs_checked': 500, 'rated_names_checked': 300, 'additions_checked': 100, 'unrecognised_software': 10, 'json_runs': 30}
 ASSUMPTIONS = ['"known in the identified version" = the database does not say the algorithm appeared later or only in another product (entries without version information count as known)',
                'version order is numeric (C14 model); when one version is a strict prefix of the other the comparison is don\'t-care',
                'client audits are not part of this property (recommendations are addressed to server operators)']
@@ -97,6 +97,8 @@ def cases(tier, seed):
     cs = []
     n = 220 if tier == 'quick' else 4000
     profiles = ['db', 'asym', 'sizes', 'terrapin', 'gss', 'unknown', 'big', 'weak', 'db', 'asym-weak']
+    for i in range(4 if tier == 'quick' else 40):
+        cs.append({'kind': 'multi', 'seed': rng.randrange(1 << 30), 'threads': [1, 2][i % 2], 'render': 'json'})
     for i in range(n):
         if i % 6 == 5:
             prod, w, sw = others[(i // 6) % len(others)]
@@ -150,25 +152,70 @@ def build(c):
     return {'banner': banner, 'kex': k, 'hostkeys': hk, 'gex': gex}
 
 
+def run_multi(c):
+    """Several peers whose run-time ratings differ (Terrapin context, key and modulus sizes) in one -T run: every entry's recommendations must follow that entry's own ratings."""
+    from harness import multi
+    names = ['clean', 'terrapin', 'rsa2048', 'rsa1024', 'gex2048', 'gex1024', 'cert-small-ca']
+    rng = random.Random(c['seed'])
+    order = rng.sample(names, 4)
+    targets = [multi.Target(n, multi.healthy(n)) for n in order]
+    try:
+        res = multi.run_multi(targets, c['threads'], 'json', timeout=240)
+    finally:
+        for t in targets:
+            t.stop()
+    viol, counters = [], {'multi_target_entries': 0}
+    for t in targets:
+        docs = (res.get('docs') or {}).get(t.spec) or []
+        if not docs:
+            viol.append(_v('C13/multi-target-entry-missing', 'no JSON entry for a target', target=t.name, err=res.get('json_error')))
+            continue
+        counters['multi_target_entries'] += 1
+        sw = t.script['banner'].split('-', 2)[2]
+        prod = 'Dropbear SSH' if sw.startswith('dropbear') else 'OpenSSH'
+        cc = {'product': prod, 'version': sw.split('_')[1].replace('p1', ''), 'software': sw, 'render': 'json', 'seed': c['seed'], 'profile': 'multi:' + t.name}
+        sub = check_doc(cc, t.script, docs[0], None)
+        for v in sub['violations']:
+            v['key'] = v['key'] + ':multi-target'
+            v['detail']['order'] = order
+            viol.append(v)
+        for k_, val in sub['counters'].items():
+            counters[k_] = counters.get(k_, 0) + val
+    seen, uniq = set(), []
+    for v in viol:
+        if v['key'] not in seen:
+            seen.add(v['key'])
+            uniq.append(v)
+    return {'violations': uniq, 'counters': counters, 'nontrivial': counters['multi_target_entries'] > 0, 'sample': {'case': c, 'order': order, 'observed': counters}, 'sample_kind': 'multi'}
+
+
 def run_case(c):
-    from ssh_audit.ssh2_kexdb import SSH2_KexDB
-    db = SSH2_KexDB.MASTER_DB
+    if c.get('kind') == 'multi':
+        return run_multi(c)
     script = build(c)
     r, p = audit.audit_server(script, ['-j'] if c['render'] == 'json' else [])
-    viol, counters = [], {}
     if r.status not in (0, 2, 3):
-        viol.append(_v('C13/audit-failed:status%s' % r.status, 'audit did not complete', out=r.out[-400:]))
-        return {'violations': viol, 'counters': counters}
+        return {'violations': [_v('C13/audit-failed:status%s' % r.status, 'audit did not complete', out=r.out[-400:])], 'counters': {}}
+    return check_doc(c, script, json.loads(r.out) if c['render'] == 'json' else None, r.out if c['render'] != 'json' else None)
+
+
+def check_doc(c, script, doc, text):
+    from ssh_audit.ssh2_kexdb import SSH2_KexDB
+    db = SSH2_KexDB.MASTER_DB
+    viol, counters = [], {}
     counters['audits_completed'] = 1
     k = script['kex']
     adv = {'kex': k['kex'], 'key': k['key'], 'enc': k['enc_sc'], 'mac': k['mac_sc']}
-    if c['render'] == 'json':
+
+    class _S:
+        status = 0
+    r = _S()
+    if doc is not None:
         counters['json_runs'] = 1
-        doc = json.loads(r.out)
         find = report.json_findings(doc)
         recs = [(sgn, n, cat, {'critical': 'fail', 'warning': 'warn', 'informational': 'good'}[lvl]) for (sgn, n, cat, lvl, _x) in report.json_recs(doc)]
     else:
-        rep = report.parse_text(r.out)
+        rep = report.parse_text(text)
         find = rep.findings()
         recs = [(sgn, n, cat, col) for (sgn, n, cat, _a, _b, col) in rep.recs]
     rated = {}
@@ -254,4 +301,4 @@ def run_case(c):
             seen.add(v['key'])
             uniq.append(v)
     return {'violations': uniq, 'counters': counters, 'nontrivial': len(recs) + len(rated) > 0,
-            'sample': {'case': c, 'recs': len(recs), 'rated': len(rated), 'status': r.status}, 'sample_kind': str(c['product']) + c['render']}
+            'sample': {'case': c, 'recs': len(recs), 'rated': len(rated)}, 'sample_kind': str(c['product']) + c['render']}
